@@ -59,7 +59,8 @@ static bool judge_open(Ctx& ctx, const Case& c, const Paths64& S, const Paths64&
     }
   }
   ctx.count("provenance_points_judged", prov);
-  ctx.count(worst_prov_milli < 500 ? "provenance_worst_lt_0.5" : worst_prov_milli < 1000 ? "provenance_worst_0.5_to_1" : worst_prov_milli <= 1500 ? "provenance_worst_1_to_1.5" : "provenance_worst_gt_1.5");
+  ctx.count(worst_prov_milli < 500 ? "provenance_worst_lt_0.5" : worst_prov_milli < 1000 ? "provenance_worst_0.5_to_1" : worst_prov_milli < 1200 ? "provenance_worst_1_to_1.2" :
+            worst_prov_milli < 1300 ? "provenance_worst_1.2_to_1.3" : worst_prov_milli < 1400 ? "provenance_worst_1.3_to_1.4" : worst_prov_milli <= 1500 ? "provenance_worst_1.4_to_1.5" : "provenance_worst_gt_1.5");
 
   // (2) membership of piece midpoints that clear the band of the relevant closed edges
   long long mj = 0, ms = 0;
